@@ -180,8 +180,10 @@ def adapt_circuit(circuit: Union[CircuitTemplate, str], params: dict, param_map:
             else:
                 for source, target, idx in edges:
                     for var in param_map[key]['vars']:
+                        # `update_var` addresses edges by (source, target) only, i.e. always the first edge between the
+                        # two variables: write the value to the indexed edge of the (copied) circuit directly
                         edge = circuit.get_edge(source=source, target=target, idx=idx)
-                        edge_updates.append((edge[0], edge[1], {var: val}))
+                        edge[3].update({var: val})
 
     return circuit.update_var(node_vars=node_updates, edge_vars=edge_updates)
 
